@@ -225,6 +225,7 @@ def run_query_case(case):
         if op == "drain":
             rec["first"] = ev["qi"] not in evaluated       # first evaluation of this expression object
             rec["b2"] = bool(ev.get("b2"))
+            rec["b3"] = bool(ev.get("b3"))
         if "qi" in ev:
             evaluated.add(ev["qi"])
         if op == "cfg":
